@@ -55,6 +55,12 @@ fn sig_of(name: &str) -> Option<Number> {
     CONDS.iter().find(|c| c.0 == name).and_then(|c| c.1)
 }
 
+/// every signal name the virtual system knows (for the `tb` leg)
+fn any_sig_of(name: &str) -> Option<Number> {
+    use yash_env::system::Signals as _;
+    VirtualSystem::new().str2sig(name)
+}
+
 fn name_of(n: Number) -> String {
     CONDS
         .iter()
@@ -719,8 +725,202 @@ fn run_multi_case(ws: &[&str]) -> (String, String) {
 
 // ------------------------------------------------------------------------------------------
 
+// ------------------------------------------------------------------------------------------
+// `tb`: the trap built-in in all its forms, kill under every disposition, subshells, wait, EXIT
+
+fn tb_action(a: &str) -> Option<String> {
+    let (k, n) = a.split_at(1);
+    match k {
+        "-" if n.is_empty() => Some("-".into()),
+        "E" if n.is_empty() => Some("''".into()),
+        "c" if n.parse::<u32>().is_ok() => Some(format!("'probe {n}'")),
+        "k" if n.parse::<u32>().is_ok() => Some(format!("'probe {n}; kill -s USR2 $$'")),
+        _ => None,
+    }
+}
+
+/// operands are passed through as written (names, numbers, unknown words), but nothing that the
+/// shell would treat specially
+fn tb_operands(ops: &[&str]) -> Option<String> {
+    if ops.iter().all(|o| o.chars().all(|c| c.is_ascii_alphanumeric() || c == '+' || c == '-')) {
+        Some(ops.join(" "))
+    } else {
+        None
+    }
+}
+
+fn tb_simple(ws: &[&str]) -> Option<String> {
+    Some(match ws {
+        ["T", a, ops @ ..] => format!("trap {} {}", tb_action(a)?, tb_operands(ops)?).trim_end().to_string(),
+        ["TN", ops @ ..] => format!("trap {}", tb_operands(ops)?).trim_end().to_string(),
+        ["P"] => "trap".into(),
+        ["PP"] => "trap -p".into(),
+        ["PC", ops @ ..] => format!("trap -p {}", tb_operands(ops)?).trim_end().to_string(),
+        ["R", n] => format!("probe {}", n.parse::<u32>().ok()?),
+        ["S", n] => format!("st {}", n.parse::<u32>().ok()?),
+        ["X", n] => format!("exit {}", n.parse::<u32>().ok()?),
+        _ => return None,
+    })
+}
+
+fn tb_inner(ws: &[&str]) -> Option<Vec<String>> {
+    ws.join(" ").split(',').map(|p| tb_simple(&p.split_whitespace().collect::<Vec<_>>())).collect()
+}
+
+fn tb_stmt(ws: &[&str]) -> Option<String> {
+    Some(match ws {
+        ["K", s] => format!("kill -s {} $$", any_sig_of(s).map(|_| s)?),
+        ["sub", inner @ ..] => format!("( {} )", tb_inner(inner)?.join("; ")),
+        ["cs", inner @ ..] => format!("x=$( {} ); echo \"$x\"", tb_inner(inner)?.join("; ")),
+        ["bg", inner @ ..] => format!("{{ {}; }} & wait $!", tb_inner(inner)?.join("; ")),
+        ["W", sigs @ ..] => {
+            let mut v: Vec<String> = vec![];
+            for s in sigs {
+                any_sig_of(s)?;
+                v.push(format!("kill -s {s} $$"));
+            }
+            v.push("st 3".into());
+            format!("( {} ) & wait $!", v.join("; "))
+        }
+        _ => tb_simple(ws)?,
+    })
+}
+
+fn tb_canon(line: &str) -> String {
+    if line.is_empty() {
+        return "-".into();
+    }
+    let Some(rest) = line.strip_prefix("trap -- ") else { return line.to_string() };
+    let Some((act, cond)) = rest.rsplit_once(' ') else { return enc_str(line) };
+    let a = if act == "-" {
+        "-".to_string()
+    } else if act == "''" {
+        "E".to_string()
+    } else if let Some(n) = act.strip_prefix("'probe ").and_then(|r| r.strip_suffix("; kill -s USR2 $$'")) {
+        format!("k{n}")
+    } else if let Some(n) = act.strip_prefix("'probe ").and_then(|r| r.strip_suffix('\'')) {
+        format!("c{n}")
+    } else {
+        enc_str(act)
+    };
+    format!("T:{a}:{cond}")
+}
+
+fn run_tb_case(case: &str) -> (String, String) {
+    let bad = || ("bad-case".to_string(), "-".to_string());
+    let mut parts: Vec<Vec<&str>> = case
+        .split(';')
+        .map(|s| s.split_whitespace().collect::<Vec<_>>())
+        .filter(|v| !v.is_empty())
+        .collect();
+    if parts.first().and_then(|p| p.first()) == Some(&"tb") {
+        parts[0].remove(0);
+        if parts[0].is_empty() {
+            parts.remove(0);
+        }
+    }
+    let mut ign: Vec<Number> = vec![];
+    if parts.first().and_then(|p| p.first()) == Some(&"ign") {
+        ign = parts[0][1..].iter().filter_map(|s| sig_of(s)).collect();
+        parts.remove(0);
+    }
+    let mut script = String::new();
+    for p in &parts {
+        let Some(t) = tb_stmt(p) else { return bad() };
+        script.push_str(&t);
+        script.push('\n');
+    }
+    let cell: Rc<std::cell::RefCell<Option<(Rc<std::cell::RefCell<yash_env::system::r#virtual::SystemState>>, yash_env::job::Pid)>>> =
+        Rc::new(std::cell::RefCell::new(None));
+    let cell2 = Rc::clone(&cell);
+    let (o, _) = shell::run_with(
+        shell::Config::new(&script),
+        move |env, state| {
+            env.builtins.insert("rs", yash_env::builtin::Builtin::new(yash_env::builtin::Type::Mandatory, rs_main));
+            let mut st = state.borrow_mut();
+            let p = st.processes.get_mut(&env.main_pid).unwrap();
+            for n in &ign {
+                p.set_disposition(*n, Disposition::Ignore);
+            }
+            drop(st);
+            *cell2.borrow_mut() = Some((Rc::clone(state), env.main_pid));
+        },
+        |_, _| (),
+    );
+    use yash_env::job::{ProcessResult, ProcessState};
+    let pstate = cell.borrow().as_ref().map(|(st, pid)| st.borrow().processes[pid].state());
+    let end = match (o.stuck, pstate) {
+        (false, _) => "exit".to_string(),
+        (true, Some(ProcessState::Halted(ProcessResult::Signaled { signal, .. }))) => format!("sig{}", signal.as_raw()),
+        (true, Some(ProcessState::Halted(ProcessResult::Stopped(signal)))) => format!("stop{}", signal.as_raw()),
+        (true, _) => "stuck".to_string(),
+    };
+    let out = o.stdout_str();
+    let lines: Vec<String> = out.lines().map(tb_canon).collect();
+    let obs = format!("out={} end={} exit={}", lines.join(","), end, if end == "exit" { o.exit_status } else { -1 });
+    // Rust-side oracle: (1) what `trap -p COND` prints right after a successful `trap ACTION COND` is
+    // that action (unless the signal was ignored on entry); (2) a command EXIT trap of the main shell
+    // runs exactly once when the shell leaves by itself, and never when a signal ended it.
+    let mut oracle = "ok".to_string();
+    if end == "stuck" {
+        oracle = "FAIL:stuck".into();
+    }
+    let tops: Vec<&Vec<&str>> = parts.iter().collect();
+    let mut exit_cmd: Option<String> = None;
+    for p in &tops {
+        if let ["T", a, ops @ ..] = p.as_slice() {
+            if ops.iter().all(|o| any_sig_of(o).is_some() || *o == "EXIT" || *o == "0")
+                && !ops.iter().any(|o| *o == "KILL" || *o == "STOP")
+                && ops.iter().any(|o| *o == "EXIT" || *o == "0")
+            {
+                exit_cmd = a.strip_prefix('c').map(|n| n.to_string());
+            }
+        } else if p.first() == Some(&"TN") {
+            exit_cmd = None; // too many forms: not judged
+            break;
+        }
+    }
+    if let Some(n) = exit_cmd {
+        let hex = format!(":{}", enc_str(&n));
+        let count = lines.iter().filter(|l| l.ends_with(&hex) && !l.starts_with("T:")).count();
+        let probes_same = parts.iter().flatten().any(|w| *w == n) && parts.iter().any(|p| p.first() == Some(&"R") && p.get(1) == Some(&n.as_str()));
+        if !probes_same {
+            if end == "exit" && count != 1 && !lines.is_empty() {
+                // (an EXIT trap reset or replaced later is not tracked: only flag duplicates)
+                if count > 1 {
+                    oracle = format!("FAIL:exit-trap-ran-{count}-times");
+                }
+            } else if end != "exit" && count > 0 {
+                oracle = "FAIL:exit-trap-ran-after-fatal-signal".into();
+            }
+        }
+    }
+    (obs, oracle)
+}
+
+/// `conds`: the conditions the `trap` built-in iterates over and their names, from the real system
+/// (the Lean driver prints its own table: any drift of signal numbers or names shows up here).
+fn run_conds_case() -> (String, String) {
+    let w = World::new();
+    let v: Vec<String> = Condition::iter(&w.env.system)
+        .map(|c| {
+            let raw: yash_env::signal::RawNumber = c.into();
+            format!("{}:{}", raw, c.to_string(&w.env.system))
+        })
+        .collect();
+    (v.join(","), "-".into())
+}
+
 fn run_case(case: &str) -> (String, String, String) {
     let ws: Vec<&str> = case.split_whitespace().collect();
+    if ws.first() == Some(&"tb") {
+        let (o, v) = run_tb_case(case);
+        return (o, v, String::new());
+    }
+    if ws == ["conds"] {
+        let (o, v) = run_conds_case();
+        return (o, v, String::new());
+    }
     if ws.first() == Some(&"script") {
         let (o, v) = run_script_case(&ws[1..]);
         (o, v, String::new())
